@@ -31,7 +31,7 @@ func init() {
 		Level: "fault_enumeration",
 		Modes: []Mode{{Name: "end", Weight: 1}},
 		Gen:   genC06, Run: runC06, Fixed: fixedC06,
-		QuickRuns: 5000, ThoroughRuns: 40000,
+		QuickRuns: 5000, ThoroughRuns: 80000,
 		Rule: "plan = (transport, recovery on/off, ping values 1..3 s, 1..2 termination causes out of {client Disconnect, manager Close, server Disconnect(false/true), DisconnectSockets(false/true), Server.Close, cut, fin, black-hole} at one instant, " +
 			"phase out of {idle, mid-burst, during upgrade, while a namespace middleware sleeps, before CONNECT}, network and stall parameters) from VERIF_SEED, plus a fixed sweep: the victim's polling and WebSocket connections cut at byte k of either direction; " +
 			"non-trivial = the cause fired on a session that had reached the intended phase; distinct = distinct (cause set, phase, transport, recovery) x history digest",
